@@ -458,7 +458,9 @@ fn main() {
     let timed = args.extra.iter().any(|a| a == "--timed");
     let cases = if args.thorough { 400 } else { 24 };
     let mut rec = Recorder::new();
-    // ---- directed cases (see `directed`)
+    // ---- directed cases (see `directed`); only for C01 (`--directed`): the second one ends in known finding D27
+    let run_directed = args.extra.iter().any(|a| a == "--directed");
+    if run_directed {
     // (1) ParentReady derived from a finalization: A learns the fast-finalization of c2 = (4,40) whose registered ancestors are
     //     cc = (3,30) -> p = (2,20); slot 3 is skip-certified; the pool announces ParentReady(4, p) although p has no
     //     certificate, and A's Votor notarizes the pending block x = (4,41) built on p.
@@ -485,6 +487,7 @@ fn main() {
              D::Nv(0, K::Nf, 3, 32, 0), D::Vb(0, 40), D::Pump(0), D::Pump(0), D::Pump(0),
              D::Nc(1, CK::Nf, 3, 32, vec![1, 2, 3], vec![0]), D::Vb(1, 40), D::Pump(1), D::Pump(1),
              D::Pb(0, 40), D::Nv(0, K::Notar, 4, 40, 0), D::Nv(0, K::Notar, 4, 40, 1)]);
+    }
     let mut progress_stats: BTreeMap<String, u64> = BTreeMap::new();
     for _case in 0..cases {
         let n = rng.range(4, 9) as usize;
